@@ -9,7 +9,7 @@ from vlib import core, gen, sched
 PROP = "C20"
 META = {
     "technique": "Coq proof: inductive invariant (thread counts per program point + ghost byte equations) over all schedules of an access-granular model of the callback hand-off in stream.go (event loop, SetCallbacks, callback goroutines, Close); tie: the real instrumented stream.go functions under a controlled scheduler compared access by access with the model",
-    "level_text": "Theorems C20_serial / C20_no_strand / C20_quiescent / C20_order_once / C20_stop hold for every list of inbound events, any number of Close() calls, any OnData behaviour and every schedule (induction over the schedule, unbounded number of goroutines), whether the callbacks are installed before the first event or later by SetCallbacks at any point (C20_late_no_strand, C20_late_serial: the two statements that were refuted before SetCallbacks was repaired). The model is tied to /repo's stream.go by running the real functions, instrumented from the current source, under random, sticky, systematic single-pre-emption and exhaustive (two arrivals) schedules whose access traces, OnData offers and final states must equal the model's; an independent serial/no-strand/order-once/stop oracle runs on every case; the former witness schedules are regression scenarios.",
+    "level_text": "Theorems C20_serial / C20_no_strand / C20_quiescent / C20_order_once / C20_stop hold for every list of inbound events, any number of Close() calls, any OnData behaviour and every schedule (induction over the schedule, unbounded number of goroutines), whether the callbacks are installed before the first event or later by SetCallbacks at any point (C20_late_no_strand, C20_late_serial: the two statements that were refuted before SetCallbacks was repaired); C20_view_stable: while an OnData runs the event loop never touches recvBuf (refuted until the closed path of fillDataToReadBuffer stopped recycling recvBuf under installed callbacks). The model is tied to /repo's stream.go by running the real functions, instrumented from the current source, under random, sticky, systematic single-pre-emption and exhaustive (two arrivals) schedules whose access traces, OnData offers and final states must equal the model's; an independent serial/no-strand/order-once/stop oracle runs on every case; the former witness schedules are regression scenarios.",
     "level_note": "Reading: a byte is 'offered' while the local state is opened (data pending when the peer's close is handled is never offered: booked under C07). Trusted: coqc kernel; sequential consistency; go/verisched instrumenter + scheduler (scheduling points only at the atomic accesses of stream.go and at harness marks: the model is finer and its theorems cover a superset of these schedules); the session stays open; one FIFO transport; payload = heap fallback slices.",
 }
 
